@@ -34,6 +34,18 @@ enum Scenario {
     /// a batch longer than any internal worker pool (the blocking client caps its workers at 64): the peer answers
     /// in waves (everything received so far, in the given order) until all n are answered
     BigBatch { kind: Option<Kind>, n: usize, order: WaveOrder },
+    /// A caller preempted INSIDE its own call: request A parks while its body is being serialized (after the
+    /// client has handed it a request id, before anything is registered or written); meanwhile call B is issued
+    /// and answered / left pending / timed out; then A continues (or, WebSocketClient with an assumed peer frame
+    /// limit, is refused locally as too large), call C is issued, and the pending calls are answered in `order`.
+    Gated { kind: Kind, a_notify: bool, refused: bool, b: BMode, order: Vec<usize> },
+}
+
+#[derive(Clone, Copy, Debug, PartialEq)]
+enum BMode {
+    Answered,
+    Pending,
+    TimedOut,
 }
 
 #[derive(Clone, Copy, Debug, PartialEq)]
@@ -148,6 +160,22 @@ fn scenarios(tier: Tier) -> Vec<Scenario> {
             if n <= 130 {
                 v.push(Scenario::BigBatch { kind: Some(Kind::Async), n, order });
                 v.push(Scenario::BigBatch { kind: Some(Kind::Ws), n, order });
+            }
+        }
+    }
+    for kind in [Kind::Async, Kind::Ws] {
+        for a_notify in [false, true] {
+            for refused in [false, true] {
+                if refused && kind == Kind::Async {
+                    continue; // AsyncClient has no outbound size guard
+                }
+                for b in [BMode::Answered, BMode::Pending, BMode::TimedOut] {
+                    // calls still awaiting a reply after C was issued: A (unless notify / refused), B (if pending), C
+                    let pending = (!a_notify && !refused) as usize + (b == BMode::Pending) as usize + 1;
+                    for order in permutations(pending) {
+                        v.push(Scenario::Gated { kind, a_notify, refused, b, order });
+                    }
+                }
             }
         }
     }
@@ -616,6 +644,222 @@ fn big_batch_blocking_once(n: usize, order: WaveOrder) -> (Bad, u64) {
     (bad, 256)
 }
 
+
+// ------------------------------------------------------------------ a caller preempted inside its own call
+
+/// Rendezvous inside `Serialize`: the first serialization of the body parks until the harness opens the gate.
+struct SerGate {
+    st: std::sync::Mutex<(bool, bool)>, // (arrived, open)
+    cv: std::sync::Condvar,
+}
+impl SerGate {
+    fn new() -> std::sync::Arc<SerGate> {
+        std::sync::Arc::new(SerGate { st: std::sync::Mutex::new((false, false)), cv: std::sync::Condvar::new() })
+    }
+    fn pass(&self) {
+        let mut g = self.st.lock().unwrap();
+        if g.1 {
+            return;
+        }
+        g.0 = true;
+        self.cv.notify_all();
+        let deadline = std::time::Instant::now() + std::time::Duration::from_secs(30);
+        while !g.1 && std::time::Instant::now() < deadline {
+            g = self.cv.wait_timeout(g, std::time::Duration::from_millis(50)).unwrap().0;
+        }
+    }
+    fn wait_arrived(&self) -> bool {
+        let deadline = std::time::Instant::now() + std::time::Duration::from_secs(10);
+        let mut g = self.st.lock().unwrap();
+        while !g.0 && std::time::Instant::now() < deadline {
+            g = self.cv.wait_timeout(g, std::time::Duration::from_millis(50)).unwrap().0;
+        }
+        g.0
+    }
+    fn open(&self) {
+        self.st.lock().unwrap().1 = true;
+        self.cv.notify_all();
+    }
+}
+struct GatedBody {
+    tag: u64,
+    pad: usize,
+    gate: std::sync::Arc<SerGate>,
+}
+impl serde::Serialize for GatedBody {
+    fn serialize<S: serde::Serializer>(&self, s: S) -> Result<S::Ok, S::Error> {
+        self.gate.pass();
+        let v = if self.pad == 0 { json!({"t": self.tag}) } else { json!({"t": self.tag, "p": "x".repeat(self.pad)}) };
+        v.serialize(s)
+    }
+}
+
+const GATE_LIMIT: usize = 1024;
+
+async fn run_gated(kind: Kind, a_notify: bool, refused: bool, b: BMode, order: &[usize]) -> (Bad, u64) {
+    let mut bad = Bad::new();
+    let what = format!("{}: A ({}{}) parked in body serialization, B {b:?}, then A continues, then C; replies in order {order:?}", kind.name(), if a_notify { "notify" } else { "call" }, if refused { ", larger than the assumed peer limit" } else { "" });
+    let limits = if refused { Some(repe::WebSocketLimits::unlimited().with_assumed_peer_frame_limit(Some(GATE_LIMIT))) } else { None };
+    let Conn { cli, mut peer, .. } = clients::connect_with(kind, limits).await;
+    let gate = SerGate::new();
+    let gb = GatedBody { tag: 1, pad: if refused { 4 * GATE_LIMIT } else { 0 }, gate: gate.clone() };
+    let handle = tokio::runtime::Handle::current();
+    let cli_a = cli.clone();
+    // A runs on its own OS thread (polled there), so that it can be parked in the middle of a call while the
+    // runtime thread goes on serving the other callers and the client's reader task
+    let th = std::thread::spawn(move || {
+        handle.block_on(async move {
+            match (cli_a, a_notify) {
+                (Cli::Async(c), false) => c.call_json("/p", &gb).await,
+                (Cli::Ws(c), false) => c.call_json("/p", &gb).await,
+                (Cli::Async(c), true) => c.notify_json("/p", &gb).await.map(|_| Value::Null),
+                (Cli::Ws(c), true) => c.notify_json("/p", &gb).await.map(|_| Value::Null),
+            }
+        })
+    });
+    if !gate.wait_arrived() {
+        gate.open();
+        let _ = th.join();
+        return (vec![("C04:harness".into(), format!("{what}: the body was never serialized"))], 0);
+    }
+    let mut seen: Vec<crate::frames::Frame> = Vec::new();
+    // ---- B, while A is parked
+    let hb = tokio::spawn(cli.call(2, if b == BMode::TimedOut { Some(std::time::Duration::from_secs(5)) } else { None }, 0));
+    match peer.drain_requests().await {
+        Ok(r) => seen.extend(r),
+        Err(e) => bad.push(("C04:request-stream-malformed".into(), format!("{what}: {e}"))),
+    }
+    let id_b = seen.iter().find(|f| clients::tag_of(f) == Some(2)).map(|f| f.h.id);
+    let Some(id_b) = id_b else {
+        gate.open();
+        let _ = th.join();
+        bad.push(("C04:requests-missing".into(), format!("{what}: B's request never arrived")));
+        return (bad, 0);
+    };
+    let mut hb = Some(hb);
+    match b {
+        BMode::Answered => {
+            peer.send(&clients::reply(id_b)).await;
+            memstream::settle().await;
+            let r = clients::join_call(hb.take().unwrap()).await;
+            if r != Res::Id(id_b) {
+                bad.push(("C04:wrong-response:error".into(), format!("{what}: B (request id {id_b}) returned {r:?}")));
+            }
+        }
+        BMode::TimedOut => {
+            tokio::time::advance(std::time::Duration::from_secs(6)).await;
+            let r = clients::join_call(hb.take().unwrap()).await;
+            if r != Res::Timeout {
+                bad.push(("C04:gated:timeout-not-reported".into(), format!("{what}: B (5 s timeout, never answered) returned {r:?} after 6 s")));
+            }
+        }
+        BMode::Pending => {}
+    }
+    // ---- A continues
+    gate.open();
+    let begun = std::time::Instant::now();
+    let mut a_done = false;
+    loop {
+        match peer.drain_requests().await {
+            Ok(r) => seen.extend(r),
+            Err(e) => {
+                bad.push(("C04:request-stream-malformed".into(), format!("{what}: {e}")));
+                break;
+            }
+        }
+        let a_on_wire = seen.iter().any(|f| clients::tag_of(f) == Some(1));
+        if th.is_finished() {
+            a_done = true;
+        }
+        if a_on_wire || a_done || begun.elapsed() > std::time::Duration::from_secs(10) {
+            break;
+        }
+        std::thread::sleep(std::time::Duration::from_millis(1));
+    }
+    let a_frame = seen.iter().find(|f| clients::tag_of(f) == Some(1)).cloned();
+    if refused {
+        if let Some(f) = &a_frame {
+            // (C17 judges the limit; here it only means A is a live call after all)
+            bad.push(("C04:harness".into(), format!("{what}: the oversized request ({} bytes) was written", f.to_bytes().len())));
+        }
+    } else if a_frame.is_none() {
+        bad.push(("C04:requests-missing".into(), format!("{what}: A's request never arrived after the gate was opened")));
+    }
+    // ---- C
+    let hc = tokio::spawn(cli.call(3, None, 0));
+    match peer.drain_requests().await {
+        Ok(r) => seen.extend(r),
+        Err(e) => bad.push(("C04:request-stream-malformed".into(), format!("{what}: {e}"))),
+    }
+    let id_c = seen.iter().find(|f| clients::tag_of(f) == Some(3)).map(|f| f.h.id);
+    // all request ids issued on one connection are distinct
+    let mut ids: Vec<u64> = seen.iter().map(|f| f.h.id).collect();
+    let n_ids = ids.len();
+    ids.sort();
+    ids.dedup();
+    if ids.len() != n_ids {
+        bad.push(("C04:duplicate-request-id".into(), format!("{what}: request ids on the wire are not distinct: {:?}", seen.iter().map(|f| (clients::tag_of(f), f.h.id)).collect::<Vec<_>>())));
+    }
+    // ---- replies to whatever is still pending, in the scripted order (B's late reply first when B timed out)
+    if b == BMode::TimedOut {
+        peer.send(&clients::reply(id_b)).await;
+        memstream::settle().await;
+    }
+    let mut pend: Vec<u64> = Vec::new();
+    if let (Some(f), false) = (&a_frame, a_notify) {
+        pend.push(f.h.id);
+    }
+    if b == BMode::Pending {
+        pend.push(id_b);
+    }
+    if let Some(c) = id_c {
+        pend.push(c);
+    } else {
+        bad.push(("C04:requests-missing".into(), format!("{what}: C's request never arrived")));
+    }
+    for i in order {
+        if let Some(id) = pend.get(*i) {
+            peer.send(&clients::reply(*id)).await;
+            memstream::settle().await;
+        }
+    }
+    // ---- every call gets its own response
+    if let Some(h) = hb.take() {
+        let r = clients::join_call(h).await;
+        if r != Res::Id(id_b) {
+            bad.push((format!("C04:wrong-response:{}", match r { Res::Hang => "hang", Res::Id(_) => "other-calls-response", _ => "error" }), format!("{what}: B (request id {id_b}) returned {r:?}")));
+        }
+    }
+    let rc = clients::join_call(hc).await;
+    if let Some(c) = id_c {
+        if rc != Res::Id(c) {
+            bad.push((format!("C04:wrong-response:{}", match rc { Res::Hang => "hang", Res::Id(_) => "other-calls-response", _ => "error" }), format!("{what}: C (request id {c}, B had {id_b}) returned {rc:?}")));
+        }
+    }
+    let begun = std::time::Instant::now();
+    while !th.is_finished() && begun.elapsed() < std::time::Duration::from_secs(10) {
+        memstream::settle().await;
+        std::thread::sleep(std::time::Duration::from_millis(1));
+    }
+    if !th.is_finished() {
+        bad.push(("C04:wrong-response:hang".into(), format!("{what}: A never returned")));
+        // (the thread is left behind; it holds nothing the next scenario uses)
+    } else {
+        let ra = th.join().map(clients::classify).unwrap_or(Res::Err("A panicked".into()));
+        match (&a_frame, a_notify, refused) {
+            (Some(f), false, false) if ra != Res::Id(f.h.id) => {
+                bad.push((format!("C04:wrong-response:{}", match ra { Res::Id(_) => "other-calls-response", _ => "error" }), format!("{what}: A (request id {}) returned {ra:?}", f.h.id)));
+            }
+            (_, _, true) if matches!(ra, Res::Id(_)) => bad.push(("C04:wrong-response:other-calls-response".into(), format!("{what}: A was never sent, yet it returned {ra:?}"))),
+            _ => {}
+        }
+    }
+    if cli.pending() != 0 {
+        bad.push(("C04:pending-residue".into(), format!("{what}: {} pending entries after all calls returned", cli.pending())));
+    }
+    (bad, 512 | if refused { 1024 } else { 0 })
+}
+
 pub fn run(tier: Tier) -> ! {
     let ctx = Ctx::new("C04", tier);
     let all = scenarios(tier);
@@ -641,10 +885,11 @@ pub fn run(tier: Tier) -> ! {
                     Scenario::BatchBlocking { n, perm } => run_perm_blocking(*n, perm, Extra::None, 0, true),
                     Scenario::BigBatch { kind: Some(k), n, order } => run_big_batch(*k, *n, *order).await,
                     Scenario::BigBatch { kind: None, n, order } => run_big_batch_blocking(*n, *order),
+                    Scenario::Gated { kind, a_notify, refused, b, order } => run_gated(*kind, *a_notify, *refused, *b, order).await,
                 }
             });
             *n += 1;
-            for bit in 0..8 {
+            for bit in 0..11 {
                 if flags & (1 << bit) != 0 {
                     *flagc.entry(bit).or_insert(0) += 1;
                 }
@@ -671,7 +916,7 @@ pub fn run(tier: Tier) -> ! {
         ctx.violation(k, w, json!({"scenario": format!("{:?}", all[i]), "index": i, "tier": tier.name()}));
     }
     let g = |b: u64| flagc.get(&b).copied().unwrap_or(0);
-    if !ctx.has_violation() && (g(0) == 0 || g(2) == 0 || g(3) == 0 || g(4) == 0 || g(5) == 0 || g(6) == 0) {
+    if !ctx.has_violation() && (g(0) == 0 || g(2) == 0 || g(3) == 0 || g(4) == 0 || g(5) == 0 || g(6) == 0 || g(9) == 0 || g(10) == 0) {
         ctx.machinery("vacuous exploration: a scenario family never ran");
     }
     let coverage = json!({
@@ -689,8 +934,10 @@ pub fn run(tier: Tier) -> ! {
             "replies_overtaking_a_blocked_write": g(4),
             "blocking_client_tcp_scenarios": g(5),
             "blocking_client_batch_scenarios": g(6),
+            "caller_preempted_inside_its_call": g(9),
+            "preempted_caller_refused_as_too_large": g(10),
         },
-        "rule": "blocking Client over loopback TCP with n caller threads (n <= 4, thorough 5): every reply permutation x extra frame x position, and batch_json under every reply order; for both tokio clients over an in-memory stream on a paused single-threaded runtime: n concurrent calls, every permutation of the n replies, one extra frame (unknown id / duplicate of reply j / notify reusing in-flight id j) at every position, delivered one by one or in one burst; batch_json under every reply order; AsyncClient replies injected while the request's write is blocked after 48+k bytes",
+        "rule": "blocking Client over loopback TCP with n caller threads (n <= 4, thorough 5): every reply permutation x extra frame x position, and batch_json under every reply order; for both tokio clients over an in-memory stream on a paused single-threaded runtime: n concurrent calls, every permutation of the n replies, one extra frame (unknown id / duplicate of reply j / notify reusing in-flight id j) at every position, delivered one by one or in one burst; batch_json under every reply order; AsyncClient replies injected while the request's write is blocked after 48+k bytes; a caller (call or notify, on its own OS thread) parked inside its own call at body serialization while another call is issued and answered / left pending / timed out, then resumed (or refused locally as larger than the WebSocket client's assumed peer limit), then a third call, the pending ones answered in every order: request ids on the wire pairwise distinct and every call gets its own response",
     });
     ctx.finish(
         "model_checking",
@@ -718,6 +965,7 @@ pub fn replay(case: &Value) -> Result<(), String> {
             Scenario::BatchBlocking { n, perm } => run_perm_blocking(*n, perm, Extra::None, 0, true),
             Scenario::BigBatch { kind: Some(k), n, order } => run_big_batch(*k, *n, *order).await,
             Scenario::BigBatch { kind: None, n, order } => run_big_batch_blocking(*n, *order),
+            Scenario::Gated { kind, a_notify, refused, b, order } => run_gated(*kind, *a_notify, *refused, *b, order).await,
         }
     });
     if b.is_empty() { Ok(()) } else { Err(b.into_iter().map(|(k, w)| format!("{k}: {w}")).collect::<Vec<_>>().join("\n")) }
